@@ -70,6 +70,14 @@ def classify(ctx, f, local, site_bid, depth=0, seen=None):
     real = [u for u in us if u[2] != 'drop']
     if not real:
         return [('dropped', 'the value is never used (let _ = .. / statement expression)')]
+    # a Result parked in a variable that the next iteration of the loop assigns again, without anything in the loop having looked at
+    # it: only the LAST iteration's outcome survives, every earlier failure is lost
+    loops = f.loops()
+    if loops:
+        defs = [bid for bid, idx, p, how in f.places() if p['local'] == local and (how == 'dest' or (how == 'store' and not p['proj']))]
+        for h, body in loops.items():
+            if any(b in body for b in defs) and not any(u[0] in body for u in real):
+                return [('dropped', 'assigned inside a loop and not inspected there: overwritten by the next iteration')]
     for bid, idx, how, p in real:
         b = f.blocks[bid]
         if idx == 'T':
